@@ -130,7 +130,7 @@ S.append(Schema('check2_plain', memo_rules(False, [(0, 'chk_m', 'first'), (1, 'c
 
 S.append(Schema('memo_check', memo_rules(True, [(0, 'chk_m', 'first')]), 'R', 'ABCD', n=2, nchk=1,
     props=('C05', 'C06', 'C14'), support=CHK_M, extract=MEMO_EXTRACT, cmp_err=False,
-    post='        if max_count(0) > 1 { return Err("C06: the body of a @memoize rule was evaluated more than once at one position"); }',
+    post='        if max_count(0) > 1 { return Err("C06: the body of a @memoize rule was evaluated more than once at one position"); }\n        if (0..NPOS).any(|p| unsafe { G.chk_calls[0][p] } > 1) { return Err("C06: a @check function reachable only through a @memoize rule ran more than once at one position"); }',
     note='m:M c:C | m:M d:D | b:B with @memoize @check M: same acceptance and tree as without @memoize; body at most once per position'))
 
 S.append(Schema('memo_plain', memo_rules(True, []), 'R', 'ABCD', n=3,
@@ -356,6 +356,15 @@ S.append(Schema('include_chain', [Rule('R', Seq(fa(), Inc('I1'), Eoi()), skip=Fa
     props=('C13',), extract=J(one(0, 'v.a'), one(1, 'v.b'), one(2, 'v.c')),
     note='a:A >I1 $ with I1 = >I2 c:C and I2 = b:B: an included body that itself starts with an include keeps its remaining parts'))
 
+S.append(Schema('leftrec_memo_inner', [Rule('R', Seq(F('l', 0, Ref('L')), Opt(fc())), skip=False, export=True),
+                                       Rule('L', Alt(Seq(F('l', 0, Ref('L'), boxed=True), fb()), F('t', 0, Ref('T'))), skip=False, leftrec=True),
+                                       Rule('T', Seq(fa()), skip=False, memo=True)], 'R', 'ABC', n=3, nonzero='B',
+    props=('C06', 'C07', 'C05'), cmp_err=False,
+    extract=J('                fn walk(l: &L, o: &mut Obs) { if let Some(p) = &l.l { walk(p, o); } if let Some(t) = &l.t { o.f[0].push(t.a); } if let Some(t) = &l.b { o.f[1].push(*t); } }',
+              '                walk(&v.l, &mut o);', opt(2, 'v.c')),
+    post='        if max_count(0) > 1 { return Err("C06: the body of a @memoize rule was evaluated more than once at one position"); }',
+    note='@leftrec L = l:*L b:B | t:T with @memoize T = a:A: growing the left-recursive match re-requests T at the same position; it is answered from the cache'))
+
 # ---------------------------------------------------------------------------------------------- extern / context / tracing
 S.append(Schema('extern_ctx', [Rule('R', Seq(fa(), Opt(fb())), export=True)], 'R', 'AB', n=3, alphabet='x ', user_ctx='crate::ops::Ctx',
     props=('C14',), extract=J(one(0, 'v.a'), opt(1, 'v.b')),
@@ -378,9 +387,9 @@ S.append(Schema('keywords', [], 'R', '', expect='compile', props=('C03',), kani=
               "match = @:struct | @:enum;\n"),
     note='rule and field names that are Rust keywords, also as variants of a generated enum'))
 S.append(Schema('layout_variants', [], 'R', '', expect='same_as:layout_tight', props=('C12',), kani=False,
-    raw_ebnf=("# comment\n@export   @no_skip_ws\nR   =\n  'a' .. 'z'   # range with layout\n  |  ( \"q\"  x : X )\n  ;\n\n@char\nX = '0' .. '9' | '_' ;\n"),
+    raw_ebnf=("# comment with non-ASCII text: \u00e9 \u20ac \U0001F600\n@export   @no_skip_ws\nR   =\n  'a' .. 'z'   # range with layout\n  |  ( \"q\"  x : X )\n  ;\n\n@check(crate::ops::chk_char0)   @char   @check(crate::ops::chk_char0)\nX = '0' .. '9' | '_' ;\n"),
     note='layout, comments and quote style do not change the grammar that is read'))
 S.append(Schema('layout_tight', [], 'R', '', expect='compile', props=('C12',), kani=False,
-    raw_ebnf=("@export @no_skip_ws R='a'..'z'|('q' x:X);@char X='0'..'9'|'_';"), note='tight layout twin'))
+    raw_ebnf=("@export @no_skip_ws R='a'..'z'|('q' x:X);@char @check(crate::ops::chk_char0) @check(crate::ops::chk_char0) X='0'..'9'|'_';"), note='tight layout twin (both @check directives after @char)'))
 
 SCHEMAS = {s.name: s for s in S}
